@@ -511,7 +511,23 @@ def rule_occthresh(ctx):
         yield ob(R, f, "pattern.occurrence_FPR:keep-iff-max>=thres#%d" % len(seen), bool(eq), "a pair is kept iff max(s) >= thres" if eq else "the pair is kept under %s, which is not max(s) >= thres: a pair whose best cell equals the threshold is treated differently" % tm.show(g, 3), node=m.node)
 
 
+def rule_velfitform(ctx):
+    """The velocity rescaling of transcription_velocity.match_notes is a least-squares solve that is defined for every
+    matched set - np.linalg.lstsq returns the minimum-norm solution when all matched velocities are equal (a constant-
+    velocity annotation, a single note), so an exact copy still passes the velocity test.  Closed-form regressions
+    (scipy.stats.linregress, a slope written as cov / var) divide by the variance of the regressor and return NaN there."""
+    R = "C02.VELFITFORM"
+    f = ctx.program.func("transcription_velocity.match_notes", R)
+    s = ctx.S.get(f.qual)
+    fits = [c for c in s.calls() if c.callee in ("np.linalg.lstsq", "scipy.linalg.lstsq", "scipy.stats.linregress", "np.polyfit", "np.polynomial.polynomial.polyfit", "scipy.optimize.curve_fit", "np.cov", "np.corrcoef")]
+    need(fits, R, "match_notes: the velocity fit was not found")
+    for i, c in enumerate(fits):
+        good = c.callee in ("np.linalg.lstsq", "scipy.linalg.lstsq")
+        yield ob(R, f, "transcription_velocity.match_notes:fit@%d" % i, good, "the fit is a least-squares solve (%s), defined for constant velocities" % c.callee if good else "the fit is %s: undefined (NaN / rank warning) when all matched estimated velocities are equal, so a perfect copy of a constant-velocity annotation scores 0" % c.callee, node=c.node)
+
+
 RULES = [
+    ("C02.VELFITFORM", 1, rule_velfitform),
     ("C02.DHDFORM", 3, rule_dhdform),
     ("C02.OCCTHRESH", 1, rule_occthresh),
     ("C02.VELFIT", 1, common.shared("c01", "rule_valueden", "C02.VELFIT", keep=lambda o: o.construct.startswith("transcription_velocity.match_notes:"))),
